@@ -157,8 +157,16 @@ fn check_scaled(hcal: u16, build: u16, vcp_raw: u16, m: &rda::Message) -> Check 
 
 /// Evaluate an accessor on one code and return its Debug rendering.
 fn meaning(index: usize, code: u16, f: impl Fn(&rda::Message) -> String) -> Result<String, Fail> {
-    let m = message_with(index, code, 0)?;
-    no_panic(&format!("coded-accessor[hw{}]({})", index, code), || f(&m))
+    // the other 59 halfwords carry noise in one evaluation and zeros in another: the meaning of a coded field
+    // must not depend on its neighbours
+    let m = message_with(index, code, 0x5A5A ^ code.rotate_left(5))?;
+    let a = no_panic(&format!("coded-accessor[hw{}]({})", index, code), || f(&m))?;
+    let m0 = message_with(index, code, 0)?;
+    let b = no_panic(&format!("coded-accessor[hw{}]({})", index, code), || f(&m0))?;
+    if a != b {
+        return Err(Fail::new(format!("coded-depends-on-other-fields:hw{}", index), format!("code {} means {} with noisy neighbours and {} with zero neighbours", code, a, b)));
+    }
+    Ok(a)
 }
 
 struct Coded {
